@@ -45,6 +45,31 @@ def persistent_effect_nodes(ck, fa: FA):
             if pm:
                 out.append((call, "call reaching a mutation of %s.%s via %s" % (pm[0][0].split(".")[-1], pm[0][1], pm[0][4])))
                 break
+    # an operation dispatched by name -- getattr(layer, 'forget_call')(..), operator.methodcaller('forget_call', ..)(layer), a
+    # bound method taken first -- is a call of every method of that name on a class that owns persistent state
+    from .c05 import _operation_sites
+    from .cache_model import safe_expand
+    known = {id(call) for q in quals for (call, cands, how) in cg.edges.get(q, []) if cands}
+    lits = set(A.strings_in(fa.node))
+    for nm in sorted(lits):
+        if not nm.isidentifier():
+            continue
+        targets = [m for c_ in ck.repo.modules.values() for k in c_.all_classes() for (mn, m) in k.methods.items()
+                   if mn == nm and _persist_owner(ck, k.qual) and m.node is not None and not ck.repo.is_abstract(m)]
+        if not targets:
+            continue
+        for (call, recv, args, kws) in _operation_sites(fa, nm):
+            if id(call) in known or A.norm(safe_expand(fa, recv, call)).endswith("._memory_cache"):
+                continue        # (the memory cache is not persistent state)
+            for m in targets:
+                fs, muts, prev = reach_effects(ck, m)
+                pm = [x for x in muts if _persist_owner(ck, x[0])]
+                if fs:
+                    out.append((call, "call (dispatched by name) reaching a filesystem write (%s via %s)" % (A.short(fs[0][1], 40), fs[0][2])))
+                    break
+                if pm:
+                    out.append((call, "call (dispatched by name) reaching a mutation of %s.%s via %s" % (pm[0][0].split(".")[-1], pm[0][1], pm[0][4])))
+                    break
     return out
 
 
